@@ -105,9 +105,13 @@ NormOk(nz) ==
            t == CHOOSE h \in RebinHist : h[1] = b IN
        d >= 1 /\ 2 * Abs(nz[j][6] * d - 720 * t[2]) <= d
 
+\* lines after a Config line that was refused or not explained have no output geometry to refer to
+Ctx == c # NoCfg /\ o # NoCfg
 Explains(r) ==
   CASE r.e = "Config" -> ConfigOk(r)
-    [] r.e = "Ev" -> c # NoCfg /\ o # NoCfg /\ EvOk(r)
+    [] r.e = "End" -> ~r.err
+    [] ~Ctx -> FALSE
+    [] r.e = "Ev" -> EvOk(r)
     [] r.e = "Hist" /\ r.which = "fine" ->
          /\ Cardinality(NzSet(r.nz)) = Len(r.nz)
          /\ NzSet(r.nz) = Scale(FineHist, 16)
@@ -126,7 +130,6 @@ Explains(r) ==
               /\ NothingTrimmed(c, p) => Total(NzSet(r.nz)) = fineTot
          ELSE PermOk(r.nz)
     [] r.e = "Rebin" /\ r.norm -> (p.tofComb % 2 = 1) => NormOk(r.nz)
-    [] r.e = "End" -> ~r.err
     [] OTHER -> FALSE
 
 \* An unexplained line is attributed to a known finding only by its signature (known_findings.jsonl):
